@@ -51,6 +51,7 @@ func main() {
 	dump := flag.String("dump", "", "dump queries into directory")
 	only := flag.String("solver", "", "use only this solver")
 	mapAll := flag.Bool("map-orders", false, "explore Go map iteration orders")
+	tier := flag.String("tier", "quick", "quick or thorough (harnesses may widen bounds)")
 	var extra multi
 	flag.Var(&extra, "overlay", "repoRelPath=file (replace a repo file; mutants and candidate fixes)")
 	flag.Parse()
@@ -67,6 +68,7 @@ func main() {
 	}
 	fmt.Fprintf(os.Stderr, "loaded in %.1fs\n", time.Since(t0).Seconds())
 	gosym.MapOrderAll = *mapAll
+	gosym.ThoroughTier = *tier == "thorough"
 	want := strings.Split(*fnsF, ",")
 	type job struct {
 		pkg *ssa.Package
